@@ -22,6 +22,7 @@ import (
 	"reflect"
 	"strings"
 	"sync/atomic"
+	"time"
 	"unsafe"
 )
 
@@ -98,7 +99,16 @@ func c15Inbound(cs []*c15Cons, op string) error {
 		if want > 3 {
 			return nil
 		}
-		return c.conn.waitFor(func() bool { return c.loggedUdp(k == 1) >= want })
+		// lal's socket read loop logs the datagram: poll for it (nothing signals the harness)
+		deadline := time.Now().Add(c15WatchdogDur())
+		for c.loggedUdp(k == 1) < want {
+			if time.Now().After(deadline) {
+				atomic.AddInt32(&c15Expired, 1)
+				return errC15Stuck
+			}
+			time.Sleep(20 * time.Microsecond)
+		}
+		return nil
 	case what[0] == 'o' && isRtsp && len(f) == 3:
 		data = []byte("OPTIONS rtsp://h/live/s RTSP/1.0\r\nCSeq: " + what[1:] + "\r\n\r\n")
 		reply = true
